@@ -1,8 +1,10 @@
 package rules
 
 import (
+	"fmt"
 	"go/token"
 	"go/types"
+	"os"
 	"strings"
 
 	"golang.org/x/tools/go/ssa"
@@ -365,6 +367,81 @@ func runC10(c *Ctx) {
 			R.OK("C10.R4", "consumeSingleCommand:exceeded-arm-order", c.atFn(csc), "on every path: the body is skipped before the ErrorResponse, which is followed by ReadyForQuery", sprintf("%d states explored", ts.States))
 		}
 	}
+	// ---------- R4: what is reported is the size error itself (it carries 54000 / ERROR by the constructor rule)
+	if h, _ := c.exceededRecovery(); h != nil {
+		resolve := func(v ssa.Value) ssa.Value {
+			for depth := 0; depth < 4; depth++ {
+				v = core.Strip(v)
+				if mi, ok := v.(*ssa.MakeInterface); ok {
+					v = mi.X
+					continue
+				}
+				if prm, ok := v.(*ssa.Parameter); ok {
+					if a, _ := c.callerArg(prm); a != nil {
+						v = a
+						continue
+					}
+				}
+				break
+			}
+			return v
+		}
+		// the error that was recognised as size-exceeded: the operand of UnwrapMessageSizeExceeded / errors.Is(.., ErrMessageSizeExceeded)
+		var handled []ssa.Value
+		fns := []*ssa.Function{h}
+		if site := c.onlyCaller(h); site != nil {
+			fns = append(fns, site.Parent())
+		}
+		for _, fn := range fns {
+			for _, ci := range core.Calls(fn) {
+				callee := core.StaticCallee(ci)
+				if core.FuncIs(callee, pkBuffer, "UnwrapMessageSizeExceeded") || (core.FuncIs(callee, "errors", "Is") && len(ci.Common().Args) == 2) {
+					if core.FuncIs(callee, "errors", "Is") {
+						u, isLoad := core.Strip(ci.Common().Args[1]).(*ssa.UnOp)
+						if !isLoad {
+							continue
+						}
+						if g, isG := u.X.(*ssa.Global); !isG || g.Name() != "ErrMessageSizeExceeded" {
+							continue
+						}
+					}
+					handled = append(handled, resolve(ci.Common().Args[0]))
+				}
+			}
+		}
+		emit := c.errorEmitter()
+		ec := c.P.Func("wire", "ErrorCode")
+		n := 0
+		for _, ci := range core.Calls(h) {
+			callee := core.StaticCallee(ci)
+			if callee == nil || (callee != emit && callee != ec) || len(ci.Common().Args) < 2 {
+				continue
+			}
+			n++
+			v := ci.Common().Args[1]
+			// further decoration keeps the code: With*(err, ..) wraps err
+			for depth := 0; depth < 6; depth++ {
+				call, isCall := core.Strip(v).(*ssa.Call)
+				if !isCall {
+					break
+				}
+				d := core.StaticCallee(call)
+				if d == nil || !c.P.InPkg(d, "errors") || !strings.HasPrefix(d.Name(), "With") || len(call.Call.Args) < 1 {
+					break
+				}
+				v = call.Call.Args[0]
+			}
+			root := resolve(v)
+			ok := false
+			for _, hv := range handled {
+				if hv == root {
+					ok = true
+				}
+			}
+			R.Check(ok, "C10.R4", "recovery:reports-the-size-error", c.at(ci), "the ErrorResponse of an oversized message is built from the size error itself (SQLSTATE 54000, severity ERROR by its constructor), possibly decorated further", "the reported error is (a With* decoration of) the error recognised as size-exceeded", "the error handed to the ErrorResponse is not the recognised size error (e.g. the unwrapped inner value, which carries no code): the client receives XXUUU instead of 54000")
+		}
+		R.Floor("C10.R4", "error reports in the recovery step", n, 1)
+	}
 	// ---------- R5
 	if h, _ := c.exceededRecovery(); h != nil {
 		var who []string
@@ -586,6 +663,9 @@ func (c *Ctx) slurpExact(rule string) {
 				}
 				if !l.Prove(ret, lt, core.Zero, 0) {
 					okAll = false
+					if os.Getenv("PWV_LINDEBUG") != "" {
+						fmt.Fprintf(os.Stderr, "slurp-empty: key=%s kind=%v term=%s\n", key, mv.Kind, lt)
+					}
 				}
 			}
 			if !found {
